@@ -254,14 +254,6 @@ EXPORT errno_t _wcsncat_s_chk(wchar_t *restrict dest, rsize_t dmax,
         }
 
         while (dmax > 0) {
-            if (unlikely(src == overlap_bumper)) {
-                handle_werror(orig_dest, orig_dmax,
-                              "wcsncat_s: "
-                              "overlapping objects",
-                              ESOVRLP);
-                return RCNEGATE(ESOVRLP);
-            }
-
             /*
              * Copying truncated
              */
@@ -281,6 +273,14 @@ EXPORT errno_t _wcsncat_s_chk(wchar_t *restrict dest, rsize_t dmax,
                 *dest = L'\0';
 #endif
                 return RCNEGATE(EOK);
+            }
+
+            if (unlikely(src == overlap_bumper)) {
+                handle_werror(orig_dest, orig_dmax,
+                              "wcsncat_s: "
+                              "overlapping objects",
+                              ESOVRLP);
+                return RCNEGATE(ESOVRLP);
             }
 
             *dest = *src;
